@@ -464,8 +464,21 @@ class TableEval:
             m = int(r)
             if m > 0 and 10 % m == 0:
                 return Fraction((self.qclass[1] + l.c) % m)
-        if isinstance(op, ast.FloorDiv) and isinstance(l, Lin) and isinstance(r, Fraction) and r > 0:
-            pass
+        # x // y and x % y of the two parameters are the quotient and the remainder divmod would give
+        if l == "X" and isinstance(r, Lin) and (r.kr, r.ky) == (0, 1):
+            if isinstance(op, ast.FloorDiv):
+                return AQ(0)
+            if isinstance(op, ast.Mod):
+                return Fraction(0) if self.rem_zero else Lin(1, 0)
+        # x - quot * y is the remainder as well
+        if isinstance(op, ast.Sub) and l == "X" and isinstance(r, tuple) and r[:1] == ("quot*y",):
+            return Fraction(0) if self.rem_zero else Lin(1, 0)
+        if isinstance(op, ast.Mult) and ((isinstance(l, AQ) and l.c == 0 and isinstance(r, Lin) and (r.kr, r.ky) == (0, 1)) or
+                                         (isinstance(r, AQ) and r.c == 0 and isinstance(l, Lin) and (l.kr, l.ky) == (0, 1))):
+            return ("quot*y",)
+        # (quot + c) compared / combined with small integers is handled in cmp(); bit test of the parity
+        if isinstance(op, ast.BitAnd) and isinstance(l, AQ) and r == Fraction(1):
+            return Fraction((self.qclass[1] + l.c) % 2)
         self.bad(n, "arithmetic")
 
     def quot_value_class(self, c: int):
